@@ -202,7 +202,8 @@ def opSrv (args : List String) (impl : String) : Verdict :=
             let fail := match fail with
               | some e => some e
               | none =>
-                if fault = 0 then some ("C02,C09,C07: a reply to client " ++ toString c ++ " does not verify for any outstanding request of that client (" ++ why ++ ")")
+                if fault = 0 then some ((if why = "delegation signature" ∨ why = "midpoint outside delegation window" ∨ why = "CERT decode" ∨ why = "DELE decode" ∨ why = "DELE field length" ∨ why = "missing CERT.DELE" ∨ why = "missing CERT.SIG" then "C10," else "") ++
+                  "C02,C09,C07: a reply to client " ++ toString c ++ " does not verify for any outstanding request of that client (" ++ why ++ ")")
                 else if rep.length > 1024 then some "C07: fault-injected reply longer than the shortest admissible request"
                 else none
             (rs, fail, invalid + 1)
